@@ -24,11 +24,11 @@ class Prop(BaseProp):
         "sort_unstable of the chunk table: compared as a key-sorted multiset",
     ]
     assumptions = [
-        "inputs are shards produced by the serialiser (sorted sections, well-formed records); the same file in both inputs has the same segments",
+        "inputs are shards produced by the serialiser (sorted sections, well-formed records); the theorems speak of unions that are well-formed shards, which excludes the merge of two records of one file whose segment lists differ (known finding K2, exhibited by the resegmented-* cases)",
     ]
     rule = ("stream c10: pairs of shards (disjoint, overlapping, identical, empty, all 4x4 flag pairs for a shared file, shared 64-bit prefixes, duplicate chunk hashes) through "
             "shard_set_union/shard_set_difference and MDBInMemoryShard::union/difference, output bytes compared with the model and re-read by the oracle; "
-            "stream c10c: sequences of shards written to a directory and consolidated under thresholds {0,1,sum,large} (oracle only); "
+            "the same file under two different segment lists for all 4x4 flag pairs (oracle only; known finding K2); stream c10c: sequences of shards written to a directory and consolidated under thresholds {0,1,sum,large} (oracle only); "
             "non-trivial = both inputs non-empty; distinct by sha256 of the case text")
 
     def streams(self, rng, tier):
@@ -117,7 +117,32 @@ class Prop(BaseProp):
                 ops += [sg.fmt_cas(c) for c in cs] + [sg.fmt_file(f) for f in fs] + ["=="]
             ops.append("target %d" % target)
             ccases.append({"id": "r%d" % i, "text": " | ".join(ops), "meta": {"kind": "consolidate-after-interrupted-run", "na": len(groups), "nb": 1}})
-        return [{"name": "c10", "cases": cases}, {"name": "c10c", "cases": ccases, "model": False}]
+        # the same file under two different segment lists (the same bytes deduplicated differently by two sessions), all 4x4 flag
+        # pairs: known finding K2 (the union grafts one list's verification entries onto the other list's segments; debug builds
+        # stop at the assertion that states the assumption).  Oracle only: the failures are reported under K2's marker.
+        rcases = []
+        for rep in range(2 if big else 1):
+            fa, ca = sg.gen_shard(rng, 2, 2, "random", max_chunks=3)
+            fb, cb = sg.gen_shard(rng, 2, 1, "random", max_chunks=3)
+            key = sg.mk_hash(rng)
+            for x in FL:
+                for y in FL:
+                    na, nb = rng.choice([(2, 3), (3, 1), (1, 2)])
+                    ra = variant(rng, sg.gen_file(rng, key, na, ca, flags=0), x)
+                    rb = variant(rng, sg.gen_file(rng, key, nb, cb, flags=0), y)
+                    ops = [sg.fmt_cas(c) for c in ca] + [sg.fmt_file(f) for f in fa + [ra]] + ["=="] + [sg.fmt_cas(c) for c in cb] + [sg.fmt_file(f) for f in fb + [rb]]
+                    rcases.append({"id": "g%d" % len(rcases), "text": " | ".join(ops), "meta": {"kind": "resegmented-%d-%d" % (FL.index(x), FL.index(y)), "na": 3, "nb": 3}})
+        return [{"name": "c10", "cases": cases}, {"name": "c10c", "cases": ccases, "model": False}, {"name": "c10", "cases": rcases, "model": False}]
+
+    def known_match(self, failure, known):
+        if failure["kind"] != "oracle":
+            return None
+        lines = [o for o in (failure.get("oracle") or []) if o.startswith("FAIL")]
+        for k in known:
+            marker = k.get("marker")
+            if marker and lines and all(marker in l for l in lines):
+                return k["id"]
+        return None
 
     def nontrivial(self, stream, case, io):
         m = case["meta"]
@@ -127,7 +152,7 @@ class Prop(BaseProp):
 
     def count(self, counters, stream, case, io):
         k = case["meta"]["kind"]
-        k = "pairs_flag_combinations" if k.startswith("flags-") else ("cases_" + k)
+        k = "pairs_flag_combinations" if k.startswith("flags-") else ("pairs_resegmented" if k.startswith("resegmented-") else "cases_" + k)
         counters[k] = counters.get(k, 0) + 1
 
     def selfcheck(self, counters, tier):
